@@ -10,9 +10,13 @@ support; combining different orderings / using a variable outside the ordering m
 Also: the SAME OBDD object as both operands (f&f, f|f, f^f, directly and through a second reference), the binary steps
 spelled with augmented assignment, the answers of variables() / get_list() edited by the caller between observations,
 orderings of 0, 1 and 2 variables (the two constants over the EMPTY ordering included), and the public node route
-OBDD(BDDNode(...), ordering) with the reduced ordered diagram of f (must be the very OBDD of f) and with ill-formed diagrams."""
+OBDD(BDDNode(...), ordering) with the reduced ordered diagram of f (must be the very OBDD of f) and with ill-formed diagrams
+(defect at the root, on a root edge, and - second audit - at ANY depth of ONE branch only: a foreign variable, a variable repeated on
+a path, a father/son pair against the ordering; stream "deep").  Stream "crowd" (c17_crowd.py): the same operations while tens to
+hundreds of other diagrams are alive, so that the parent sets that make up the unique table are long."""
 from common import *
 import bddlib as B
+import c17_crowd as CROWD
 LEVEL = 'proof'
 
 PAR3 = '((a & ~b | ~a & b) & ~c | ~(a & ~b | ~a & b) & c)'
@@ -26,6 +30,148 @@ BASIS = ['0', '1', 'a', 'b', 'c', 'd', '~a', '~d', 'a & b', 'a | b', 'a & ~b', '
 BASIS = [B.rn(t) for t in BASIS]
 __doc__ = __doc__ % len(BASIS)
 PSIZE = 4
+
+
+# ----------------------------------------------------------------------------------------
+# ill-formed diagrams with ONE defect at a chosen position of the (tree) spec of a reduced ordered diagram
+# ----------------------------------------------------------------------------------------
+def spec_positions(spec, pre=()):
+    """positions (tuples of 1 = low / 2 = high) of the internal nodes"""
+    if isinstance(spec, list):
+        yield pre
+        for d in (1, 2):
+            for p in spec_positions(spec[d], pre + (d,)):
+                yield p
+
+
+def spec_at(spec, pos):
+    for d in pos:
+        spec = spec[d]
+    return spec
+
+
+def spec_put(spec, pos, new):
+    if not pos:
+        return new
+    out = list(spec)
+    out[pos[0]] = spec_put(spec[pos[0]], pos[1:], new)
+    return out
+
+
+def spec_ordered(spec, O, above=-1):
+    """every node tests a variable of O strictly later than its father's"""
+    if not isinstance(spec, list):
+        return True
+    if spec[0] not in O or O.index(spec[0]) <= above:
+        return False
+    return spec_ordered(spec[1], O, O.index(spec[0])) and spec_ordered(spec[2], O, O.index(spec[0]))
+
+
+DEFECTS = ('foreign', 'repeat_father', 'repeat_ancestor', 'swap_with_son', 'earlier_variable')
+
+
+def defect_specs(spec, O, rng, outsiders):
+    """-> [(kind, depth of the changed node, ill-formed spec, expectation)] : every kind of defect at every position where it
+    applies (the caller samples); the rest of the diagram, the other branch of every ancestor in particular, stays as it is"""
+    out = []
+    for pos in spec_positions(spec):
+        node = spec_at(spec, pos)
+        d = len(pos)
+        anc = [spec_at(spec, pos[:i])[0] for i in range(d)]          # variables of the ancestors, root first
+        cands = []
+        if d >= 1:
+            cands.append(('foreign', [rng.choice(outsiders)] + node[1:], 'inner_outside'))
+            cands.append(('repeat_father', [anc[-1]] + node[1:], 'misordered'))
+            earlier = [v for v in O[:O.index(anc[-1])] if v not in anc]
+            if earlier:
+                cands.append(('earlier_variable', [rng.choice(earlier)] + node[1:], 'misordered'))
+        if d >= 2:
+            cands.append(('repeat_ancestor', [rng.choice(anc[:-1])] + node[1:], 'misordered'))
+        sons = [c for c in (1, 2) if isinstance(node[c], list)]
+        if sons:
+            c = rng.choice(sons)
+            new = list(node)
+            new[0] = node[c][0]
+            new[c] = [node[0]] + node[c][1:]
+            cands.append(('swap_with_son', new, 'misordered'))
+        for kind, new, expect in cands:
+            bad = spec_put(spec, pos, new)
+            if not spec_ordered(bad, O):                                # by construction; a safety net of the generator
+                out.append((kind, d + (1 if kind == 'swap_with_son' else 0), bad, expect))
+    return out
+
+
+def deep_node_ops(k, O, e, rng, want, min_depth=1):
+    """`want` node steps OBDD(<ill-formed BDDNode>, O) -> p[k] for the diagram of e, preferring deep defects and distinct kinds"""
+    O = list(O)
+    if not O:
+        return []
+    spec = B.spec_of_tt(B.tt_eval(e), O)
+    outs = [v for v in range(5) if v not in O] + ['zz', 'A']
+    cands = [c for c in defect_specs(spec, O, rng, outs) if c[1] >= min_depth]
+    rng.shuffle(cands)
+    cands.sort(key=lambda c: -c[1])
+    ops, seen = [], set()
+    for kind, depth, bad, expect in cands:                            # deepest first, one per kind
+        if len(ops) < want and kind not in seen:
+            seen.add(kind)
+            ops.append(['node', k, O, e, bad, expect, '%s@%d' % (kind, depth)])
+    for kind, depth, bad, expect in cands:
+        if len(ops) < want and (kind, depth) not in seen:
+            seen.add((kind, depth))
+            if not any(o[4] == bad for o in ops):
+                ops.append(['node', k, O, e, bad, expect, '%s@%d' % (kind, depth)])
+    return ops
+
+
+def deep_history(O, e, rng):
+    """stream "deep": the diagram of e through the node route, well-formed once and with every kind of single defect at several depths;
+    every refusal must leave p[3] (the well-formed one) as it is, which the operations at the end use"""
+    O = list(O)
+    ops = [B.mk_parse(0, O, e), B.mk_node(3, O, e)]
+    ops += deep_node_ops(3, O, e, rng, 9)
+    ops += [['and', 0, 3, 2], ['xor', 3, 0, 2], ['not', 3, 1], ['or', 1, 3, 2], ['gc']]
+    return {'psize': PSIZE, 'ops': ops, 'O': O, 'stream': 'deep'}
+
+
+def crowd_history(rng, k, kind, layout, basis):
+    """stream "crowd": focus operations over <= 4 variables while `k` crowd diagrams are alive (see c17_crowd.py).  The focus part
+    builds every literal and its negation twice by different routes, the redundant test (z & f) | (~z & f) == f, and random
+    operations between basis members"""
+    O = list(range(4))
+    rng.shuffle(O)
+    O = O[:rng.choice([2, 3, 4, 4])]
+    ops = []
+    lit = lambda v: ('v', v)
+    for v in O:
+        # slot 0: node route BDDNode(v, 0, 1); slot 1: the parser; slot 2/3: the negation by ~ and by the parser
+        ops += [B.mk_parse(0, O, lit(v)), B.mk_parse(1, O, lit(v)), ['not', 0, 2], B.mk_parse(3, O, ('not', lit(v), False)),
+                ['xor', 2, 3, 2], ['not', 2, 2]]
+    members = [e for e in basis if B.evars(e) <= set(O)]
+    for n in range(6):
+        z = rng.choice(O)
+        f = rng.choice(members) if n % 2 else lit(rng.choice(O))
+        # (z & f) | (~z & g), f and g two separately built diagrams of one function: must be f itself (no node testing z)
+        ops += [B.mk_parse(0, O, f), B.mk_parse(1, O, B.to_kw(f) if n % 3 == 0 else f), B.mk_parse(2, O, lit(z)),
+                ['and', 2, 0, 3], ['not', 2, 2], ['and', 2, 1, 2], ['or', 3, 2, 3]]
+        if n % 3 == 2:
+            ops.append(['gc'])
+    for n in range(14):
+        r = rng.random()
+        i, j, dst = rng.randrange(4), rng.randrange(4), rng.randrange(4)
+        if r < 0.3:
+            ops.append(B.mk_parse(dst, O, rng.choice(members)))
+        elif r < 0.75:
+            ops.append([rng.choice(['and', 'or', 'xor']), i, j, dst] + (['aug'] if rng.random() < 0.2 else []))
+        elif r < 0.85:
+            ops.append(['not', i, dst])
+        elif r < 0.95:
+            ops.append(['restrict', i, rng.choice(O), rng.choice([True, False, 0, 1]), dst])
+        else:
+            ops.append(B.mk_node(dst, O, rng.choice(members)))
+    ops.append(['gc'])
+    return {'psize': PSIZE, 'ops': ops, 'O': O, 'stream': 'crowd',
+            'crowd': {'k': k, 'kind': kind, 'layout': layout, 'texts': CROWD.crowd_texts(kind, k, rng)}}
 
 
 def history_for(O, e1, basis, rng):
@@ -57,6 +203,8 @@ def history_for(O, e1, basis, rng):
         nd = B.mk_node(3, O, e1, kind, rng.choice(outs))
         if nd is not None:
             ops.append(nd)
+    # one defect anywhere in ONE branch (deepest positions first, three different kinds)
+    ops += deep_node_ops(3, O, e1, rng, 3)
     ops += [['and', 0, 3, 2], ['xor', 3, 0, 2]]
     # guards: another ordering of the same variables, a sub-ordering, an ordering lacking a used variable
     O2 = list(reversed(O))
@@ -79,7 +227,12 @@ def history_for(O, e1, basis, rng):
 
 
 def batch(histories):
-    return B.run_batch(histories)
+    """histories of the crowd stream go to the crowd worker, the others to the common one; answers in the order of the histories"""
+    plain = [h for h in histories if 'crowd' not in h]
+    crowd = [h for h in histories if 'crowd' in h]
+    rp = iter(B.run_batch(plain) if plain else [])
+    rc = iter(CROWD.run_batch(crowd) if crowd else [])
+    return [next(rc) if 'crowd' in h else next(rp) for h in histories]
 
 
 def run(R):
@@ -107,23 +260,64 @@ def run(R):
               'Observed after every step: status, truth '
               'tables of the pool on all 16 assignments (library = model = integer arithmetic on the operand tables), variables() = set of '
               'variables the table depends on, node walk of every pool diagram (ordered, low is not high), plus the C16 unique-table scans. '
-              'A case = (ordering, operation, operands); non-trivial = the result diagram has >= 2 internal nodes'
+              'Second audit: (i) single defects in ONE branch of the node route: for every history three, and in a stream "deep" of %d '
+              'histories (basis members and random expressions with >= 3 levels, random orderings of 3 and 4 variables) up to nine, '
+              'ill-formed diagrams obtained from the reduced ordered diagram by ONE change at a position of the tree (deepest positions '
+              'first, every kind): a variable outside the ordering (a fifth name of the harness, "zz", "A"), the variable of the father '
+              'repeated, the variable of a farther ancestor repeated, the variables of a node and its son exchanged, an earlier variable '
+              'that is not on the path; every other branch stays well-formed; all must be refused (only acceptance is a violation) and '
+              'leave the slot as it was. (ii) stream "crowd" (c17_crowd.py): %d histories of ~80 focus steps over 2-4 of the variables '
+              '(every literal and its negation built twice by different routes - BDDNode(v,0,1), parser, ~ - ; (z & f) | (~z & g) for two '
+              'separately built diagrams f, g of one function; random &,|,^,~,restrict, node-route steps between basis members) executed '
+              'while 12..%d other diagrams (literals / negated literals / both / random two-variable connectives over crowd variables '
+              'x0..) are alive, the crowd variables before, after or between the focus variables in the ordering: the parent sets of the '
+              'two terminals (the lists the unique-table lookup scans) hold from 4 to > 200 nodes; same observations and the same model '
+              'comparison (node counts relative to the crowd), plus: every crowd diagram built again at the end is the kept one (same '
+              'root, ==, not !=), nothing is alive after the crowd is released. '
+              'A case = (ordering, operation, operands); non-trivial = the result diagram has >= 2 internal nodes (node route: every '
+              'ill-formed diagram, and well-formed ones of >= 2 nodes)'
               % (len(BASIS), 'all 24 permutations of a..d and all 24 orderings of 3 of the 4 variables' if R.thorough else
                  '4 permutations of a..d and 2 three-variable orderings',
-                 'every ordering of 0, 1 and 2 variables' if R.thorough else '[], 2 one-variable and 3 two-variable orderings'))
+                 'every ordering of 0, 1 and 2 variables' if R.thorough else '[], 2 one-variable and 3 two-variable orderings',
+                 96 if R.thorough else 20, 24 if R.thorough else 6, 520 if R.thorough else 260))
     hs = []
     for O in orders:
         for e1 in basis:
             if B.evars(e1) <= set(O):
                 hs.append(history_for(O, e1, basis, rng))
     hs.sort(key=lambda h: -len(repr(h['ops'][0])))       # big diagrams first: better load balance
-    batches = B.chunks(hs, 2)
+    # stream "deep": diagrams of 3 and 4 levels (basis members and random expressions) with single defects at every depth
+    big = [e for e in basis if len(B.tt_support(B.tt_eval(e))) >= 3]
+    deep = []
+    n = 0
+    while len(deep) < (96 if R.thorough else 20):
+        n += 1
+        O = list(rng.choice(perms4 if n % 4 else perms3))
+        e = rng.choice(big) if n % 2 else B.rand_expr(rng, 4, O, p_kw=0.2, p_const=0.0)
+        if B.evars(e) <= set(O) and len(B.tt_support(B.tt_eval(e))) >= 3:
+            deep.append(deep_history(O, e, rng))
+    # stream "crowd": parent sets of the terminals from a dozen to some hundreds of nodes
+    sizes = [12, 34, 40, 70, 130, 260, 520, 90] if R.thorough else [12, 34, 40, 70, 130, 260]
+    crowds = []
+    for rep in range(3 if R.thorough else 1):
+        for n, k in enumerate(sizes):
+            kind = CROWD.CROWD_KINDS[(n + rep) % 4] if k != 40 else 'both'
+            crowds.append(crowd_history(rng, k, kind, CROWD.LAYOUTS[(n + rep) % 3], basis))
+    # the crowd histories first (the longest single jobs), one per batch
+    batches = [[h] for h in crowds] + B.chunks(hs, 2) + B.chunks(deep, 4)
     results = B.parallel(batch, batches)
-    kinds, errors, sizes, node_refusals = {}, {}, {}, {}
+    kinds, errors, sizes, node_refusals, defects, crowd_cov = {}, {}, {}, {}, {}, []
     for bt, res in zip(batches, results):
         for h, (viol, info, _) in zip(bt, res):
             for v in viol:
-                B.report_violation(R, 'C17', h, v, extra={'ordering': [B.NAMES[x] for x in h['O']]})
+                if 'crowd' in h:
+                    CROWD.report_violation(R, 'C17', h, v, extra={'ordering': [B.NAMES[x] for x in h['O']]})
+                else:
+                    B.report_violation(R, 'C17', h, v, extra={'ordering': [B.NAMES[x] for x in h['O']]})
+            if 'crowd' in h:
+                c = h['crowd']
+                crowd_cov.append('%d %s, crowd variables %s the focus ordering %s: %d steps'
+                                 % (c['k'], c['kind'], c['layout'], [B.NAMES[x] for x in h['O']], len(info)))
             cur = {}
             for op, s in zip(h['ops'], info):
                 k = op[0]
@@ -138,8 +332,10 @@ def run(R):
                     R.evaluations += 1
                     key = '%s:%s' % (op[5], s['lib_status'])
                     node_refusals[key] = node_refusals.get(key, 0) + 1
+                    if len(op) > 6:
+                        defects[op[6]] = defects.get(op[6], 0) + 1
                     if op[5] != 'ok' or B.spec_nodes(op[4]) >= 2:
-                        R.nontriv((tuple(h['O']), 'node', op[5], B.spec_text(op[4])))
+                        R.nontriv((tuple(h['O']), 'node', op[5], B.spec_text(op[4])) + (('crowd', h['crowd']['k']) if 'crowd' in h else ()))
                     continue
                 if k in ('and', 'or', 'xor') and len(op) > 4:
                     kinds[k + '(augmented)'] = kinds.get(k + '(augmented)', 0) + 1
@@ -153,7 +349,9 @@ def run(R):
                 dst = op[3] if k in ('and', 'or', 'xor') else op[-1]
                 internal = s['shape'][dst][0]
                 sizes[internal] = sizes.get(internal, 0) + 1
-                if internal >= 2:
+                if internal >= 2 and h.get('stream') == 'crowd':
+                    R.nontriv(('crowd', h['crowd']['k'], h['crowd']['kind'], tuple(h['O']), k, cur.get(0), cur.get(1), tuple(op[1:5])))
+                elif internal >= 2:
                     key = (tuple(h['O']), k, cur.get(0)) + ((cur.get(1),) if k in ('and', 'or', 'xor') else tuple(op[2:4]) if k == 'restrict' else ())
                     R.nontriv(key)
                     if k in ('xor', 'restrict') and internal >= 4:
@@ -161,7 +359,9 @@ def run(R):
                                   'result_nodes': internal})
     R.cov['distribution'] = {'orderings': len(orders), 'histories': len(hs), 'operations': kinds, 'expected_errors': errors,
                              'result_internal_nodes': {str(k): v for k, v in sorted(sizes.items())},
-                             'node_route(kind:library status)': node_refusals}
+                             'node_route(kind:library status)': node_refusals,
+                             'node_route single defects (kind@depth of the offending node, root = 0)': dict(sorted(defects.items())),
+                             'crowd histories (diagrams kept alive, kind, layout, focus ordering)': crowd_cov}
     R.cov['informational'] = ('node route, not part of the violation logic: a BDDNode whose ROOT variable is outside the ordering is refused by the '
                               'library\'s explicit guard (RuntimeError, demanded); a variable outside the ordering BELOW the root is refused with '
                               'KeyError (ListOrdering.cmp looks the name up before the guard of the child is reached) - C17 speaks of RuntimeError '
@@ -173,4 +373,7 @@ def run(R):
 
 
 def replay(R, data):
-    B.replay_history(R, data)
+    if 'crowd' in data['data']:
+        CROWD.replay(R, data)
+    else:
+        B.replay_history(R, data)
